@@ -285,18 +285,18 @@ def execute(case, ctx):
         if case.get('links') and why in ('twice-direct', 'twice-nested', 'diamond'):
             _link_some(files, 7)
             why += '/through-symbolic-links'
-        argv = _argv(fname, case['idirs'])
+        argv = _argv(fname, case['idirs'], isa.origin if why.startswith('inert-') else None)
         res = runner.run_forked(argv, files)
         detail = {'sources': {k: v for k, v in files.items() if k.endswith('.asm')}, 'argv': argv, 'why': why, 'run': res.brief()}
         findings = []
-        if why.startswith('inert-'):
+        if res.klass == 'timeout':
+            findings.append(Finding('C17/timeout', detail))
+        elif why.startswith('inert-'):
             # not a reject scenario: the pasted text assembles, so must this
             if res.klass != 'accepted':
                 findings.append(Finding('C17/include-in-a-branch-that-is-not-compiled-takes-effect/' + why, detail))
         elif res.klass == 'accepted':
             findings.append(Finding('C17/reject/' + why + '-accepted', detail))
-        elif res.klass == 'timeout':
-            findings.append(Finding('C17/timeout', detail))
         return Outcome(findings, True, ['kind:reject', 'why:' + why, 'outcome:' + res.klass], 1,
                        sample={'sources': detail['sources'], 'why': why})
     try:
